@@ -266,7 +266,8 @@ def run(tier: str) -> int:
                     mc.atoms.calc = Harmonic(k=calc.k, centers=calc.centers, eps=calc.eps, cellk=calc.cellk)
                     g = install_rng(mc)
             if ser:
-                mc.to_dict()  # serialized again at the end: every user component is asked again
+                mc.to_dict()  # serialized again at the end, twice (the same object): every user component is asked each time
+                mc.to_dict()
             mc.close()
         except Exception as ex:  # noqa: BLE001
             outside = [e for e in LOG if e[0] in ("getattr", "setattr")]
